@@ -581,31 +581,9 @@ func (e eng) Execute(mode string, c *hx.Case) (*hx.Result, error) {
 	default:
 		return nil, fmt.Errorf("unknown kind %q", kind)
 	}
-	// watchdog: a case that does not finish (e.g. a firing loop that never ends) is reported, not waited for
-	type out struct {
-		res *hx.Result
-		err error
-		pan any
-	}
-	ch := make(chan out, 1)
-	go func() {
-		defer func() {
-			if p := recover(); p != nil {
-				ch <- out{pan: p}
-			}
-		}()
-		res, err := f(c, ops)
-		ch <- out{res: res, err: err}
-	}()
-	select {
-	case o := <-ch:
-		if o.pan != nil {
-			panic(o.pan)
-		}
-		return o.res, o.err
-	case <-time.After(20 * time.Second):
-		return nil, fmt.Errorf("case %s did not finish within 20 s (the implementation hangs on this history)", c.Name)
-	}
+	// No deadline of our own: hx runs Execute in a supervised child process and attributes a hang (180 s without
+	// progress) or a panic in any goroutine to this case.
+	return f(c, ops)
 }
 
 func tsTags(t tsJ, tags map[string]bool) {
@@ -834,7 +812,9 @@ type scriptReader struct {
 }
 
 func (s *scriptReader) ReadEvents() ([][]byte, error) {
-	time.Sleep(30 * time.Millisecond) // the source outlasts the runner's first 200 ms watermark tick
+	// Pacing only (timing class a): makes the source outlast the runner's first 200 ms watermark tick so that ticks fall
+	// between reads. If the machine is slow the run just has more ticks; nothing that is compared depends on it.
+	time.Sleep(30 * time.Millisecond)
 	s.mu.Lock()
 	defer s.mu.Unlock()
 	if s.next >= len(s.batches) {
@@ -859,7 +839,7 @@ func (keyingHandler) ProcessEventBatch(ctx context.Context, req *handlerpb.Proce
 // KeyEventBatch is slow on purpose: results arrive after the runner has already queued later placeholders
 // (among them a ticker watermark), which is the regime where the stamping point matters.
 func (keyingHandler) KeyEventBatch(ctx context.Context, events [][]byte) ([][]*handlerpb.KeyedEvent, error) {
-	time.Sleep(25 * time.Millisecond)
+	time.Sleep(25 * time.Millisecond) // pacing only (timing class a): sharpens detection, never changes what is compared
 	out := make([][]*handlerpb.KeyedEvent, len(events))
 	for i, raw := range events {
 		var evs []evJ
@@ -940,7 +920,10 @@ func execRun(c *hx.Case, ops []opJ) (*hx.Result, error) {
 	var obs []any
 	nw := 0
 	snapshot := func(minW int) bool {
-		deadline := time.Now().Add(15 * time.Second)
+		// Poll until the condition holds. It is reached on every schedule: the runner's ticker keeps broadcasting every
+		// 200 ms, a dropped tick (slow machine) only delays it. The 150 s bound is for a truly wedged runner and is
+		// reported as an execution error, never turned into an observation.
+		deadline := time.Now().Add(150 * time.Second)
 		for {
 			total, ok := 0, true
 			counts := make([]int, nops)
@@ -961,7 +944,7 @@ func execRun(c *hx.Case, ops []opJ) (*hx.Result, error) {
 			}
 			done := ok && total == nk
 			late := time.Now().After(deadline)
-			if done || late {
+			if done {
 				obs = nil
 				for i, rc := range order {
 					streams[i] = hx.CoqList(rc.events, "sev")
@@ -976,13 +959,20 @@ func execRun(c *hx.Case, ops []opJ) (*hx.Result, error) {
 				return true
 			}
 			if late {
-				tags["no_quiescent_snapshot"] = true // what was received is reported: the check flags missing events / watermarks
 				return false
 			}
-			time.Sleep(500 * time.Microsecond)
+			time.Sleep(500 * time.Microsecond) // poll pacing
 		}
 	}
-	if snapshot(0) {
+	stopRunner := func() {
+		sr.Stop()
+		<-done // the runner's own completion signal; no deadline (hx's hang detector covers a runner that never stops)
+	}
+	if !snapshot(0) {
+		stopRunner()
+		return nil, fmt.Errorf("source runner wedged: no quiescent delivery (all keyed events, equal watermark counts, a final watermark everywhere) within 150 s")
+	}
+	{
 		// a further split assignment on the running runner (split discovery / rebalancing), then the next tick(s):
 		// the runner's watermark must not fall back
 		first := nw
@@ -990,15 +980,14 @@ func execRun(c *hx.Case, ops []opJ) (*hx.Result, error) {
 			return nil, err
 		}
 		tags["reassign_after_watermark"] = true
-		// the assignment is queued for the event loop; two more ticks guarantee one stamped after it was handled
-		snapshot(first + 1)
+		// The assignment is queued for the event loop; after two more ticks one was almost surely stamped after it was
+		// handled. On correct code the assignment changes no watermark, so WHEN it is handled affects detection power only.
+		if !snapshot(first + 1) {
+			stopRunner()
+			return nil, fmt.Errorf("source runner wedged after a further split assignment: no further watermark everywhere within 150 s")
+		}
 	}
-	sr.Stop()
-	select {
-	case <-done:
-	case <-time.After(5 * time.Second):
-		return nil, fmt.Errorf("source runner did not stop")
-	}
+	stopRunner()
 	if nw > 1 {
 		tags["several_watermarks"] = true
 	}
@@ -1046,7 +1035,8 @@ func execLoop(c *hx.Case, ops []opJ) (*hx.Result, error) {
 	var terms []string
 	placeholders, nw, nk, nas := 0, 0, 0, 0
 	waitSent := func(want int) error {
-		deadline := time.Now().Add(20 * time.Second)
+		// poll until the output stage has handled everything queued; 150 s only for a truly wedged stage (exec error)
+		deadline := time.Now().Add(150 * time.Second)
 		for {
 			n, errs := loop.Sent()
 			if len(errs) > 0 {
@@ -1061,7 +1051,7 @@ func execLoop(c *hx.Case, ops []opJ) (*hx.Result, error) {
 			default:
 			}
 			if time.Now().After(deadline) {
-				return fmt.Errorf("output stage handled %d of %d placeholders within 20 s", n, want)
+				return fmt.Errorf("output stage wedged: handled %d of %d placeholders within 150 s", n, want)
 			}
 			time.Sleep(100 * time.Microsecond)
 		}
@@ -1445,7 +1435,8 @@ func execOp(c *hx.Case, ops []opJ) (*hx.Result, error) {
 		}
 		// HandleEvent returns after the operator's event loop has fully processed the event
 		var err error
-		for try := 0; try < 200; try++ {
+		for {
+			// "not ready" cannot occur here (HandleDeploy returned, status is Ready); retried without a bound anyway
 			err = op.HandleEvent(ctx, srName(o.S), ev)
 			if err == nil || !strings.Contains(err.Error(), "not ready") {
 				break
@@ -1483,12 +1474,11 @@ func execOp(c *hx.Case, ops []opJ) (*hx.Result, error) {
 		calls = append(calls, s)
 		obs = append(obs, raw)
 	}
+	// Stop through the context as well (op.Stop is a no-op until Start has installed its cancel function) and wait
+	// for Start's own return: no goroutine of the operator touches its storage after that. No deadline.
 	op.Stop()
-	select {
-	case <-done:
-	case <-time.After(5 * time.Second):
-		return nil, fmt.Errorf("operator did not stop")
-	}
+	cancel()
+	<-done
 	if h.ntimer > 0 {
 		tags["timer_expired"] = true
 	}
